@@ -80,6 +80,7 @@ def c15():
 
 LOCK_EXT = ['gh_done', 'gh_snap', 'gh_acquired', 'gh_released', 'gh_set_obsolete']
 MIX2 = ['mix_rc_w', 'mix_ru_w', 'mix_w_w', 'mix_rc_wo', 'mix_ru_wo', 'mix_w_wo', 'mix_rh_w', 'mix_rh_wo']
+MIX22 = {'mix2_rw_ww': 'reader then writer || two writes', 'mix2_wr_wr': 'writer then reader || writer then reader', 'mix2_rw_wo': 'reader then writer || writer then unlock_and_obsolete', 'mix2_ww_wo': 'two writes || writer then unlock_and_obsolete'}
 MIX3 = ['mix_rc_w_w', 'mix_ru_w_wo', 'mix_w_w_wo', 'mix_rc_ru_w', 'mix_rh_w_w', 'mix_rh_w_wo']
 MIX_ABOUT = {'rc': 'reader validating with check()', 'ru': 'reader validating with try_read_unlock()', 'w': 'writer (upgrade, 2-word write, unlock)',
              'wo': 'writer ending in unlock_and_obsolete()', 'rh': 'reader re-opening a section with rehydrate_read_lock()'}
@@ -99,13 +100,16 @@ def c07():
             qs.append(Query(m + sfx, u, m, unwind=3, replay='none', tier=tier,
                             about='all SC interleavings of: ' + ' || '.join(MIX_ABOUT[p] for p in parts) + (' [assertion-enabled build: read_lock_count bookkeeping]' if cfg == 'debug' else ''),
                             bounds={'threads': len(parts), 'ops_per_thread': 1, 'memory_model': 'SC', 'spin': 'spinning executions cut (equivalent to later arrival)'}))
+        for m, what in MIX22.items():
+            qs.append(Query(m + sfx, u, m, unwind=3, replay='none', tier='quick' if cfg == 'base' else 'thorough',
+                            about='all SC interleavings of two threads with TWO lock operations each: ' + what, bounds={'threads': 2, 'ops_per_thread': 2, 'memory_model': 'SC'}))
     return Check('C07', 'model_checking', qs,
                  assumptions=['threads: CBMC partial-order encoding, sequential consistency, every atomic access a scheduling point',
                               'a thread that would spin in try_read_lock is cut at the spin hint (assume false): the spinning reads have no effect, so the execution is equivalent to one where the thread arrives later',
                               'ghost observers (writers_active, acquisitions, obsolete) are updated in atomic steps adjacent to the lock calls (harness/lock_glue.c)',
                               'version wrap-around after 2^62 write cycles is outside the claim'],
-                 explanation='One operation per thread (read section, upgrade+write+unlock, unlock_and_obsolete, rehydrate), 2 and 3 threads, all interleavings decided by SAT. '
-                             'More than one operation per thread and more than three threads are outside the bound.')
+                 explanation='One operation per thread (read section, upgrade+write+unlock, unlock_and_obsolete, rehydrate) for 2 and 3 threads, two operations per thread for 2 threads; all interleavings decided by SAT. '
+                             'More than two operations per thread and more than three threads are outside the bound.')
 
 
 PRELUDES = {  # name -> (number of inodes on the deepest path + leaf = descent-loop iterations, highest node type reachable by one insert)
